@@ -1,5 +1,626 @@
 package c09
 
-import "verif/engine/runner"
+import (
+	"bytes"
+	"context"
+	"fmt"
+	"io"
+	"math/bits"
+	"net"
+	"time"
 
-func peerUnits(tier string) []runner.Unit { return nil }
+	"github.com/enfein/mieru/v3/pkg/appctl/appctlpb"
+
+	"verif/engine/explore"
+	"verif/engine/runner"
+	"verif/engine/simnet"
+	"verif/engine/vsched"
+	"verif/harness/world"
+	"verif/harness/xfer"
+	"verif/refwire"
+)
+
+// Direction 2: the reference codec is a third-party peer of a real endpoint.
+
+type prog struct {
+	UDP      bool
+	AsServer bool // refwire plays the server against a real client
+	OpenPay  int  // bytes piggy-backed on the open request (client role): 0, 1, 10, 1024
+	Writes   []int
+	Mode     uint8
+	Mask     uint32
+	Rot      uint8
+	LEPad    uint8
+	Pad1     int
+	Pad2     int
+	Carry    bool // first TCP nonce ends in ff ff so that the increment carries over bytes
+	Seed     int64
+}
+
+func (p prog) String() string {
+	role := "ref-client"
+	if p.AsServer {
+		role = "ref-server"
+	}
+	t := "tcp"
+	if p.UDP {
+		t = "udp"
+	}
+	return fmt.Sprintf("%s %s open-payload=%d writes=%v le-mode=%d mask=%08x rot=%d le-pad=%d pad1=%d pad2=%d carry-nonce=%v seed=%d", t, role, p.OpenPay, p.Writes, p.Mode, p.Mask, p.Rot, p.LEPad, p.Pad1, p.Pad2, p.Carry, p.Seed)
+}
+
+var cred = refwire.Cred{User: "alice", Password: "pw1"}
+
+func fill(n int, b byte) []byte { return bytes.Repeat([]byte{b}, n) }
+
+func nonceFor(p prog, salt byte) []byte {
+	n := make([]byte, 24)
+	for i := range n {
+		n[i] = byte(int(p.Seed)*31+i*7) ^ salt
+	}
+	if p.Carry {
+		// search a 16-byte prefix whose hint ends in ff ff: the second AEAD operation then
+		// carries over two bytes
+		for c := 0; c < 1<<22; c++ {
+			n[0], n[1], n[2] = byte(c), byte(c>>8), byte(c>>16)
+			h := refwire.Hint(cred.User, n)
+			if h[3] == 0xff && h[2] == 0xff {
+				break
+			}
+		}
+	}
+	return n
+}
+
+var socksReq = []byte{5, 1, 0, 1, 93, 184, 216, 34, 0x03, 0xe8} // CONNECT 93.184.216.34:1000
+var socksResp = []byte{5, 0, 0, 1, 0, 0, 0, 0, 0, 0}
+
+func (p prog) dataProto(c2s bool) uint8 {
+	switch {
+	case p.Mode != 0 && c2s:
+		return refwire.DataClientToServerLE
+	case p.Mode != 0:
+		return refwire.DataServerToClientLE
+	case c2s:
+		return refwire.DataClientToServer
+	}
+	return refwire.DataServerToClient
+}
+
+func peerExec(p prog, ctl *explore.Ctl) explore.Result {
+	v := &xfer.Verdict{Prop: "C09"}
+	var stp *appctlpb.TrafficPattern
+	if p.Mode != 0 {
+		stp = xfer.TP(-1, 0, false, 0, appctlpb.LowEntropyMode(p.Mode), appctlpb.LowEntropyMaskRotation(p.Rot))
+	}
+	cfg := world.Config{UDP: p.UDP, MTU: 1400, Seed: p.Seed, Horizon: 90 * time.Second, ServerTP: stp, ClientTP: stp}
+	if p.AsServer {
+		// no real server: the world is started by hand below
+		cfg.NoClient = true
+	} else {
+		cfg.NoClient = true
+	}
+	ex := world.RunBare(cfg, ctl, func(w *world.World) {
+		unix := func() int64 { return w.S.Epoch.Unix() + w.S.NowNS()/1e9 }
+		opts := func(nonce []byte) refwire.EncodeOpts {
+			return refwire.EncodeOpts{Nonce: nonce, Pad1: fill(p.Pad1, 'x'), Pad2: fill(p.Pad2, 'y'), LEPadBit: p.LEPad, Unix: unix()}
+		}
+		var appData []byte
+		for i, n := range p.Writes {
+			appData = append(appData, world.Pattern(i, 'w', 0, n)...)
+		}
+		if !p.AsServer {
+			// ---- reference client against the real server ----
+			if err := w.StartServer(); err != nil {
+				v.Add("setup", "%v", err)
+				return
+			}
+			var got []byte // what the real server application read
+			appDone := false
+			w.Go("srv-app", "server", func() {
+				c, _, err := w.Accept()
+				if err != nil {
+					v.Add("peer/rejected", "the real server did not accept a well-formed session of the reference client: %v", err)
+					return
+				}
+				buf := make([]byte, 65536)
+				for {
+					n, err := c.Read(buf)
+					got = append(got, buf[:n]...)
+					if n > 0 {
+						c.Write(buf[:n]) // echo
+					}
+					if err != nil && !world.IsTimeout(err) {
+						break
+					}
+				}
+				appDone = true
+				c.Close()
+			})
+			// the stream the application at the reference client writes: request, then data
+			stream := append(append([]byte(nil), socksReq...), appData...)
+			open := stream
+			if len(open) > p.OpenPay {
+				open = open[:p.OpenPay]
+			}
+			rest := stream[len(open):]
+			sid := uint32(0x1000 + p.Seed)
+			var segs []*refwire.Seg
+			segs = append(segs, &refwire.Seg{Proto: refwire.OpenSessionRequest, SessionID: sid, Seq: 0, Payload: open})
+			seq := uint32(1)
+			maxFrag := 32768
+			if p.Mode == 1 {
+				maxFrag = 32764
+			}
+			if p.UDP {
+				maxFrag = 1400 - 88
+				if p.Mode != 0 {
+					maxFrag = (1400 - 88) / 8 * refwire.ModeC[p.Mode]
+				}
+				maxFrag -= p.Pad1 + p.Pad2
+				if p.Mode != 0 {
+					maxFrag = (1400 - 88 - p.Pad1 - p.Pad2) / 8 * refwire.ModeC[p.Mode]
+				}
+			}
+			for len(rest) > 0 {
+				n := len(rest)
+				if n > maxFrag {
+					n = maxFrag
+				}
+				segs = append(segs, &refwire.Seg{Proto: p.dataProto(true), SessionID: sid, Seq: seq, Window: 1024, Payload: rest[:n], Mode: p.Mode, Mask: p.Mask, Rotation: p.Rot})
+				seq++
+				rest = rest[n:]
+			}
+			want := append(append([]byte(nil), socksResp...), appData...)
+			var echoed []byte
+			var decodeErr error
+			if !p.UDP {
+				d := simnet.Dialer{N: w.Net, Source: net.IPv4(10, 77, 0, 1)}
+				conn, err := d.DialContext(context.Background(), "tcp", fmt.Sprintf("10.0.0.1:%d", world.ServerPort))
+				if err != nil {
+					v.Add("setup", "%v", err)
+					return
+				}
+				enc := &refwire.StreamEncoder{C: cred, Slot: refwire.RoundSlot(unix())}
+				for _, s := range segs {
+					o := opts(nonceFor(p, 0))
+					if s.IsSession() {
+						o.Pad1 = nil
+					}
+					conn.Write(enc.Encode(s, o))
+				}
+				dec := &refwire.StreamDecoder{Creds: []refwire.Cred{cred}}
+				var buf []byte
+				tmp := make([]byte, 65536)
+				conn.SetReadDeadline(w.S.Now().Add(20 * time.Second))
+				for len(echoed) < len(want) {
+					n, err := conn.Read(tmp)
+					buf = append(buf, tmp[:n]...)
+					for {
+						s, used, e := dec.Next(buf, unix())
+						if e == refwire.ErrShort {
+							break
+						}
+						if e != nil {
+							decodeErr = e
+							break
+						}
+						buf = buf[used:]
+						if s.IsData() || s.Proto == refwire.OpenSessionResponse {
+							echoed = append(echoed, s.Payload...)
+						}
+					}
+					if err != nil || decodeErr != nil {
+						break
+					}
+				}
+				// close: request, expect the session to end at the server application
+				conn.Write(enc.Encode(&refwire.Seg{Proto: refwire.CloseSessionRequest, SessionID: sid, Seq: seq}, opts(nil)))
+				vsched.Sleep(200 * time.Millisecond)
+				conn.Close()
+			} else {
+				ep := w.Net.NewEndpoint(net.IPv4(10, 77, 0, 1), 7000)
+				srv := &net.UDPAddr{IP: net.IPv4(10, 0, 0, 1), Port: world.ServerPort}
+				for i, s := range segs {
+					o := opts(nonceFor(p, byte(i+1)))
+					if s.IsSession() {
+						o.Pad1 = nil
+					}
+					ep.WriteTo(refwire.EncodeDatagram(s, cred, o), srv)
+				}
+				nextRecv := uint32(0)
+				pending := map[uint32]*refwire.Seg{}
+				tmp := make([]byte, 2048)
+				deadline := w.S.Now().Add(20 * time.Second)
+				k := 0
+				for len(echoed) < len(want) {
+					ep.SetReadDeadline(deadline)
+					n, _, err := ep.ReadFrom(tmp)
+					if err != nil {
+						break
+					}
+					s, e := refwire.DecodeDatagram(tmp[:n], []refwire.Cred{cred}, unix())
+					if e != nil {
+						decodeErr = e
+						break
+					}
+					if (s.IsData() || s.Proto == refwire.OpenSessionResponse) && s.Seq >= nextRecv {
+						pending[s.Seq] = s
+					}
+					for {
+						q, ok := pending[nextRecv]
+						if !ok {
+							break
+						}
+						echoed = append(echoed, q.Payload...)
+						delete(pending, nextRecv)
+						nextRecv++
+					}
+					k++
+					ack := &refwire.Seg{Proto: refwire.AckClientToServer, SessionID: sid, Seq: seq - 1, UnAck: nextRecv, Window: 1024}
+					ep.WriteTo(refwire.EncodeDatagram(ack, cred, refwire.EncodeOpts{Nonce: nonceFor(p, byte(100+k)), Pad1: fill(p.Pad1, 'a'), Pad2: fill(p.Pad2, 'b'), Unix: unix()}), srv)
+				}
+				// every segment of the server has been acknowledged: a server that understood the
+				// acks has nothing left to retransmit
+				if decodeErr == nil && len(echoed) == len(want) {
+					vsched.Sleep(300 * time.Millisecond)
+					for {
+						// the first retransmission timeout of a segment sent before any RTT sample is 3 s
+						ep.SetReadDeadline(w.S.Now().Add(3200 * time.Millisecond))
+						n, _, err := ep.ReadFrom(tmp)
+						if err != nil {
+							break
+						}
+						if s, e := refwire.DecodeDatagram(tmp[:n], []refwire.Cred{cred}, unix()); e == nil && (s.IsData() || s.Proto == refwire.OpenSessionResponse) && s.Seq < nextRecv {
+							v.Add("peer/ack-not-understood", "the real server retransmitted %v well after the reference client had acknowledged everything below %d (ack datagrams with prefix padding %d, suffix padding %d)", s, nextRecv, p.Pad1, p.Pad2)
+							break
+						}
+					}
+				}
+				ep.WriteTo(refwire.EncodeDatagram(&refwire.Seg{Proto: refwire.CloseSessionRequest, SessionID: sid, Seq: seq}, cred, refwire.EncodeOpts{Nonce: nonceFor(p, 250), Pad2: fill(p.Pad2, 'c'), Unix: unix()}), srv)
+				vsched.Sleep(200 * time.Millisecond)
+				ep.Close()
+			}
+			vsched.Sleep(2 * time.Second)
+			if decodeErr != nil {
+				v.Add("peer/reply-undecodable", "the reference client cannot decode the real server's reply: %v", decodeErr)
+			}
+			if !bytes.Equal(got, appData) {
+				v.Add("peer/not-understood", "the real server application read %d bytes, the reference client sent %d bytes of application data (first difference at %d)", len(got), len(appData), firstDiff(got, appData))
+			} else if !bytes.Equal(echoed, want) && decodeErr == nil {
+				v.Add("peer/reply-differs", "the reference client reassembled %d bytes from the real server, expected the socks5 response and the %d echoed bytes", len(echoed), len(appData))
+			}
+			if !appDone {
+				v.Add("peer/close-not-understood", "the real server application was not told about the end of the session after the reference client's close request")
+			}
+			w.Shutdown()
+			return
+		}
+		// ---- reference server against the real client ----
+		var readByApp []byte
+		var sentByApp = world.Pattern(9, 'k', 0, 300)
+		var gotFromApp []byte
+		stream := append(append([]byte(nil), socksResp...), appData...)
+		sid := uint32(0)
+		var observe func()
+		serve := func(recvSeg func() (*refwire.Seg, error), send func(s *refwire.Seg, i int)) {
+			// expect the open request carrying the socks5 request
+			var req []byte
+			for len(req) < 10 {
+				s, err := recvSeg()
+				if err != nil {
+					v.Add("peer/request-undecodable", "the reference server cannot decode the real client's handshake: %v", err)
+					return
+				}
+				if s.Proto == refwire.OpenSessionRequest || s.IsData() {
+					sid = s.SessionID
+					req = append(req, s.Payload...)
+				}
+				if s.Proto == refwire.OpenSessionRequest {
+					// answer at once: a client that cannot piggy-back (low entropy) waits for this
+					send(&refwire.Seg{Proto: refwire.OpenSessionResponse, SessionID: sid, Seq: 0}, 0)
+				}
+			}
+			if !bytes.Equal(req[:10], socksReq) {
+				v.Add("peer/request-differs", "the reference server decoded the request % x", req)
+				return
+			}
+			seq := uint32(1)
+			rest := stream
+			maxFrag := 32768
+			if p.Mode == 1 {
+				maxFrag = 32764
+			}
+			if p.UDP {
+				maxFrag = (1400 - 88 - p.Pad1 - p.Pad2)
+				if p.Mode != 0 {
+					maxFrag = maxFrag / 8 * refwire.ModeC[p.Mode]
+				}
+			}
+			for len(rest) > 0 {
+				n := len(rest)
+				if n > maxFrag {
+					n = maxFrag
+				}
+				send(&refwire.Seg{Proto: p.dataProto(false), SessionID: sid, Seq: seq, UnAck: 1, Window: 1024, Payload: rest[:n], Mode: p.Mode, Mask: p.Mask, Rotation: p.Rot}, int(seq))
+				seq++
+				rest = rest[n:]
+			}
+			for len(gotFromApp) < len(sentByApp) {
+				s, err := recvSeg()
+				if err != nil {
+					return
+				}
+				if s.IsData() && s.SessionID == sid {
+					gotFromApp = append(gotFromApp, s.Payload...)
+				}
+			}
+			if observe != nil {
+				observe()
+			}
+		}
+		if !p.UDP {
+			l, err := simnet.StreamFactory{N: w.Net}.Listen(context.Background(), "tcp", fmt.Sprintf("10.0.0.1:%d", world.ServerPort))
+			if err != nil {
+				v.Add("setup", "%v", err)
+				return
+			}
+			w.Go("ref-server", "adversary", func() {
+				c, err := l.Accept()
+				if err != nil {
+					return
+				}
+				dec := &refwire.StreamDecoder{Creds: []refwire.Cred{cred}}
+				var enc *refwire.StreamEncoder
+				var buf []byte
+				tmp := make([]byte, 65536)
+				recv := func() (*refwire.Seg, error) {
+					for {
+						s, used, e := dec.Next(buf, unix())
+						if e == nil {
+							buf = buf[used:]
+							return s, nil
+						}
+						if e != refwire.ErrShort {
+							return nil, e
+						}
+						c.SetReadDeadline(w.S.Now().Add(20 * time.Second))
+						n, err := c.Read(tmp)
+						buf = append(buf, tmp[:n]...)
+						if err != nil && n == 0 {
+							return nil, err
+						}
+					}
+				}
+				send := func(s *refwire.Seg, i int) {
+					if enc == nil {
+						_, slot := dec.Key()
+						enc = &refwire.StreamEncoder{C: cred, Slot: slot}
+					}
+					o := opts(nonceFor(p, 0x55))
+					if s.IsSession() {
+						o.Pad1 = nil
+					}
+					c.Write(enc.Encode(s, o))
+				}
+				serve(recv, send)
+			})
+		} else {
+			ep := w.Net.NewEndpoint(net.IPv4(10, 0, 0, 1), world.ServerPort)
+			w.Go("ref-server", "adversary", func() {
+				var peer net.Addr
+				nextRecv := uint32(0)
+				pend := map[uint32]*refwire.Seg{}
+				var ready []*refwire.Seg
+				tmp := make([]byte, 2048)
+				k := 0
+				recv := func() (*refwire.Seg, error) {
+					for len(ready) == 0 {
+						ep.SetReadDeadline(w.S.Now().Add(20 * time.Second))
+						n, from, err := ep.ReadFrom(tmp)
+						if err != nil {
+							return nil, err
+						}
+						peer = from
+						s, e := refwire.DecodeDatagram(tmp[:n], []refwire.Cred{cred}, unix())
+						if e != nil {
+							return nil, e
+						}
+						if (s.IsData() || s.Proto == refwire.OpenSessionRequest) && s.Seq >= nextRecv {
+							pend[s.Seq] = s
+						}
+						for {
+							q, ok := pend[nextRecv]
+							if !ok {
+								break
+							}
+							ready = append(ready, q)
+							delete(pend, nextRecv)
+							nextRecv++
+						}
+						if s.IsData() {
+							k++
+							ack := &refwire.Seg{Proto: refwire.AckServerToClient, SessionID: s.SessionID, UnAck: nextRecv, Window: 1024}
+							ep.WriteTo(refwire.EncodeDatagram(ack, cred, refwire.EncodeOpts{Nonce: nonceFor(p, byte(120+k)), Pad1: fill(p.Pad1, 'a'), Pad2: fill(p.Pad2, 'b'), Unix: unix()}), peer)
+						}
+					}
+					s := ready[0]
+					ready = ready[1:]
+					return s, nil
+				}
+				observe = func() {
+					// all client data is acknowledged: a client that understood the acks stays quiet
+					start := w.S.NowNS()
+					for {
+						ep.SetReadDeadline(w.S.Now().Add(300 * time.Millisecond))
+						n, _, err := ep.ReadFrom(tmp)
+						if err != nil {
+							return
+						}
+						if s, e := refwire.DecodeDatagram(tmp[:n], []refwire.Cred{cred}, unix()); e == nil && s.IsData() && s.Seq < nextRecv && w.S.NowNS()-start > int64(200*time.Millisecond) {
+							v.Add("peer/ack-not-understood", "the real client retransmitted %v although the reference server had acknowledged everything below %d (ack datagrams with prefix padding %d, suffix padding %d)", s, nextRecv, p.Pad1, p.Pad2)
+							return
+						}
+					}
+				}
+				send := func(s *refwire.Seg, i int) {
+					o := opts(nonceFor(p, byte(0x60+i)))
+					if s.IsSession() {
+						o.Pad1 = nil
+					}
+					if s.IsDataAck() {
+						s.UnAck = nextRecv
+					}
+					ep.WriteTo(refwire.EncodeDatagram(s, cred, o), peer)
+				}
+				serve(recv, send)
+			})
+		}
+		var cli interface {
+			Stop() error
+		}
+		w.OnNode("client", func() {
+			c, err := w.NewClient(world.DefaultUsers()[0], nil)
+			if err != nil {
+				v.Add("setup", "%v", err)
+				return
+			}
+			cli = c
+			conn, err := c.DialContext(context.Background(), &net.TCPAddr{IP: net.IPv4(93, 184, 216, 34), Port: 1000})
+			if err != nil {
+				v.Add("peer/rejected", "the real client did not complete the handshake with the reference server: %v", err)
+				return
+			}
+			buf := make([]byte, len(appData))
+			conn.SetReadDeadline(w.S.Now().Add(30 * time.Second))
+			n, _ := io.ReadFull(conn, buf)
+			readByApp = buf[:n]
+			conn.Write(sentByApp)
+			vsched.Sleep(500 * time.Millisecond)
+			conn.Close()
+		})
+		vsched.Sleep(time.Second)
+		if len(v.Viol) == 0 {
+			if !bytes.Equal(readByApp, appData) {
+				v.Add("peer/not-understood", "the real client application read %d bytes, the reference server sent %d bytes of application data (first difference at %d)", len(readByApp), len(appData), firstDiff(readByApp, appData))
+			} else if !bytes.Equal(gotFromApp, sentByApp) {
+				v.Add("peer/reply-differs", "the reference server decoded %d bytes from the real client, the client application wrote %d", len(gotFromApp), len(sentByApp))
+			}
+		}
+		if cli != nil {
+			w.OnNode("client", func() { cli.Stop() })
+		}
+	})
+	for _, pn := range ex.Panics {
+		v.Add("panic", "panic in mieru goroutine: %s", pn)
+	}
+	out := "ok"
+	if len(v.Viol) > 0 {
+		out = v.Viol[0].Signature
+	}
+	return explore.Result{Outcome: out, Violations: v.Viol, Steps: ex.Steps}
+}
+
+func firstDiff(a, b []byte) int {
+	for i := 0; i < len(a) && i < len(b); i++ {
+		if a[i] != b[i] {
+			return i
+		}
+	}
+	if len(a) < len(b) {
+		return len(a)
+	}
+	return len(b)
+}
+
+func maskOf(ones int, k int) uint32 {
+	m := uint64(1)<<uint(ones) - 1
+	for i := 0; i < k*997; i++ {
+		c := m & -m
+		r := m + c
+		m = (((r ^ m) >> 2) / c) | r
+		if m >= 1<<32 {
+			m = uint64(1)<<uint(ones) - 1
+		}
+	}
+	if k%2 == 1 {
+		return bits.Reverse32(uint32(m))
+	}
+	return uint32(m)
+}
+
+func peerUnits(tier string) []runner.Unit {
+	run := func(u *runner.U, p prog) {
+		u.Sample(p.String())
+		u.Explore(explore.Bound{}, p.String(), func(ctl *explore.Ctl) explore.Result { return peerExec(p, ctl) })
+		u.Distinct(p.String())
+	}
+	rots := []uint8{0}
+	for i := 1; i <= 15; i++ {
+		rots = append(rots, uint8(i), uint8(i*16))
+	}
+	var us []runner.Unit
+	const parts = 4
+	for _, udp := range []bool{false, true} {
+		for _, srv := range []bool{false, true} {
+			for part := 0; part < parts; part++ {
+				udp, srv, part := udp, srv, part
+				name := fmt.Sprintf("peer-%s-%s-%d", map[bool]string{false: "tcp", true: "udp"}[udp], map[bool]string{false: "refclient", true: "refserver"}[srv], part)
+				us = append(us, runner.Unit{Name: name, Cost: 4, Run: func(u *runner.U) {
+					all := run
+					run := func(u *runner.U, p prog) {
+						if int(p.Seed)%parts == part {
+							all(u, p)
+						}
+					}
+					i := 0
+					big := []int{32768}
+					if udp {
+						big = []int{3000}
+					}
+					// plain segments: open payloads x writes x padding lengths
+					for _, op := range []int{0, 1, 10, 1024} {
+						for _, wr := range [][]int{{1}, big, {1, 1}, {1024, 1025}} {
+							for _, pd := range [][2]int{{0, 0}, {1, 0}, {0, 1}, {255, 255}, {0, 255}, {255, 0}} {
+								if udp && pd[0]+pd[1] > 300 {
+									continue
+								}
+								i++
+								run(u, prog{UDP: udp, AsServer: srv, OpenPay: op, Writes: wr, Pad1: pd[0], Pad2: pd[1], Carry: i%2 == 0 && !udp, Seed: int64(i)})
+								if srv {
+									break // the open payload is the real client's choice in this role
+								}
+							}
+						}
+						if srv && op > 0 {
+							continue
+						}
+					}
+					// low entropy: all modes x all rotations x both polarities x masks
+					for mode := uint8(1); mode <= 4; mode++ {
+						for ri, rot := range rots {
+							for pad := uint8(0); pad <= 1; pad++ {
+								if tier == "quick" && (ri+int(pad)+int(mode))%3 != 0 {
+									continue
+								}
+								i++
+								wr := []int{1, 100}
+								if mode == 1 && !udp {
+									wr = []int{32764}
+								} else if ri%5 == 0 {
+									wr = big
+								}
+								run(u, prog{UDP: udp, AsServer: srv, OpenPay: 10, Writes: wr, Mode: mode, Mask: maskOf(refwire.ModeOnes[mode], i), Rot: rot, LEPad: pad, Pad1: i % 3, Pad2: (i / 3) % 3, Seed: int64(i)})
+								if u.Expired() {
+									u.NotExhaustive("budget")
+									return
+								}
+							}
+						}
+					}
+				}})
+			}
+		}
+	}
+	return us
+}
